@@ -67,6 +67,26 @@ class Scope:
         return None
 
 
+#: module context of the function under analysis: local name -> itertools function it was imported as (`from itertools import repeat as r`),
+#: and the local names of the itertools module itself (`import itertools as it`)
+_ITERTOOLS_FUNCS: dict = {}
+_ITERTOOLS_MODS: set = {"itertools"}
+
+
+def set_module_context(tree):
+    _ITERTOOLS_FUNCS.clear()
+    _ITERTOOLS_MODS.clear()
+    _ITERTOOLS_MODS.add("itertools")
+    for n in ast.walk(tree):
+        if isinstance(n, ast.ImportFrom) and n.module == "itertools":
+            for a in n.names:
+                _ITERTOOLS_FUNCS[a.asname or a.name] = a.name
+        elif isinstance(n, ast.Import):
+            for a in n.names:
+                if a.name == "itertools":
+                    _ITERTOOLS_MODS.add(a.asname or a.name)
+
+
 def alloc_kind(v):
     if isinstance(v, (ast.List, ast.Dict, ast.Set, ast.ListComp, ast.DictComp, ast.SetComp)):
         return "mutable"
@@ -81,7 +101,9 @@ def alloc_kind(v):
             return "subject"
         if isinstance(f, ast.Name) and n in ONE_SHOT_CALLS:
             return "oneshot"
-        if isinstance(f, ast.Attribute) and n in ONE_SHOT_ATTR and isinstance(f.value, ast.Name) and f.value.id == "itertools":
+        if isinstance(f, ast.Attribute) and n in ONE_SHOT_ATTR and isinstance(f.value, ast.Name) and f.value.id in _ITERTOOLS_MODS:
+            return "oneshot"
+        if isinstance(f, ast.Name) and _ITERTOOLS_FUNCS.get(n) in ONE_SHOT_ATTR:
             return "oneshot"
         if n in ("list", "dict", "set", "deque", "OrderedDict", "defaultdict"):
             return "mutable"
@@ -220,6 +242,10 @@ class Finding:
 
 
 def analyse_function(relpath, fn, loader, iterable_params):
+    try:
+        set_module_context(loader.load_file(relpath).tree)
+    except Exception:  # noqa: BLE001
+        pass
     root = build_scope(fn, None, fn.name)
     curried = any(isinstance(d, ast.Name) and d.id == "curry_flip" for d in fn.decorator_list)
     subs = mark_levels(root)
@@ -578,9 +604,81 @@ def run_local(desc):
             "seconds": time.time() - t0}
 
 
+#: class attributes that ARE meant to be shared by all instances: the per-thread / per-class singleton registries
+SHARED_CLASS_STATE = {
+    ("reactivex/scheduler/currentthreadscheduler.py", "CurrentThreadScheduler", "_global"): "registry of the per-thread singletons (singleton())",
+    ("reactivex/scheduler/currentthreadscheduler.py", "CurrentThreadSchedulerSingleton", "_local"): "thread-local trampoline of the singleton",
+    ("reactivex/scheduler/immediatescheduler.py", "ImmediateScheduler", "_global"): "registry of the singleton (__new__)",
+    ("reactivex/scheduler/timeoutscheduler.py", "TimeoutScheduler", "_global"): "registry of the singleton (__new__)",
+}
+_CONTAINER_CTORS = {"dict", "list", "set", "defaultdict", "OrderedDict", "deque", "Counter", "WeakKeyDictionary", "WeakValueDictionary", "WeakSet", "bytearray"}
+_MUTATING = {"append", "add", "update", "setdefault", "pop", "popitem", "remove", "discard", "clear", "extend", "insert", "appendleft", "popleft", "__setitem__"}
+
+
+def run_class_state(desc):
+    """The class contracts (monitors, refinements, function contracts of the schedulers) are about ONE object, from an arbitrary state of
+    its own fields.  That they speak for every object of the class is this frame condition: no method keeps state in a mutable container
+    that is a CLASS attribute (shared by all instances: one scheduler's work would see another's) - except the singleton registries."""
+    t0 = time.time()
+    loader = Loader()
+    results, functions = [], {}
+    for rel in desc.get("files", []):
+        try:
+            m = loader.load_file(rel)
+        except (OSError, SyntaxError, Exception):  # noqa: BLE001
+            continue
+        for c in [n for n in ast.walk(m.tree) if isinstance(n, ast.ClassDef)]:
+            shared = {}
+            for st in c.body:
+                tgt = val = None
+                if isinstance(st, ast.Assign) and len(st.targets) == 1 and isinstance(st.targets[0], ast.Name):
+                    tgt, val = st.targets[0].id, st.value
+                elif isinstance(st, ast.AnnAssign) and isinstance(st.target, ast.Name) and st.value is not None:
+                    tgt, val = st.target.id, st.value
+                if tgt is None:
+                    continue
+                is_container = isinstance(val, (ast.Dict, ast.List, ast.Set, ast.ListComp, ast.DictComp, ast.SetComp)) or (
+                    isinstance(val, ast.Call) and (getattr(val.func, "id", None) or getattr(val.func, "attr", None)) in _CONTAINER_CTORS)
+                if is_container:
+                    shared[tgt] = st.lineno
+            try:
+                functions[f"{rel}::{c.name}"] = loader.sha(rel, c.name)
+            except Exception:  # noqa: BLE001
+                pass
+            oid = f"{rel}::{c.name}/instances-share-no-mutable-class-level-state"
+            bad = []
+            for attr, line in shared.items():
+                if (rel, c.name, attr) in SHARED_CLASS_STATE:
+                    continue
+                # written through self / cls / the class name / type(self) by some method?
+                for n in ast.walk(c):
+                    a = None
+                    if isinstance(n, (ast.Subscript,)) and isinstance(n.ctx, (ast.Store, ast.Del)) and isinstance(n.value, ast.Attribute) and n.value.attr == attr:
+                        a = n.value
+                    elif isinstance(n, ast.Call) and isinstance(n.func, ast.Attribute) and n.func.attr in _MUTATING and isinstance(n.func.value, ast.Attribute) \
+                            and n.func.value.attr == attr:
+                        a = n.func.value
+                    elif isinstance(n, ast.AugAssign) and isinstance(n.target, ast.Attribute) and n.target.attr == attr:
+                        a = n.target
+                    if a is not None:
+                        bad.append((attr, line, n.lineno))
+                        break
+            if not bad:
+                results.append({"id": oid, "verdict": "proved", "backend": "frame-analysis", "model": {}, "path": [], "seconds": 0.0, "kind": "frame",
+                                "detail": "; ".join(f"{a}: {SHARED_CLASS_STATE[(rel, c.name, a)]}" for a in shared if (rel, c.name, a) in SHARED_CLASS_STATE)})
+            for (attr, line, use) in bad:
+                results.append({"id": f"{oid}/{attr}", "verdict": "refuted", "backend": "frame-analysis", "model": {}, "path": [], "seconds": 0.0, "kind": "frame",
+                                "detail": f"`{attr}` is a mutable container created once in the class body (line {line}) and written by a method (line {use}): "
+                                          f"every {c.name} object shares it - state kept for one object is seen by all the others"})
+    return {"unit": f"instance-state/{desc['prop']}", "kind": "K4 frame condition of the class contracts (state is per object)",
+            "functions": functions, "results": results, "unsupported": None, "spec_validation": [], "bounded": [], "seconds": time.time() - t0}
+
+
 def run_unit(desc):
     if desc.get("mode") == "local":
         return run_local(desc)
+    if desc.get("mode") == "classes":
+        return run_class_state(desc)
     t0 = time.time()
     loader = Loader()
     prop = desc["prop"]
